@@ -6,6 +6,7 @@ import (
 	"errors"
 	"fmt"
 	"math"
+	"strings"
 	"time"
 
 	"0chain.net/core/config"
@@ -691,6 +692,11 @@ func (c *Chain) transferAmount(sctx bcstate.StateContextI, fromClient, toClient 
 	}
 	if fromClient == toClient {
 		return nil, common.InvalidRequest("from and to client should be different for balance transfer")
+	}
+	// client ids are lower-case hex; the state trie walks children case-insensitively but matches leaf
+	// paths byte-wise, so another spelling of an id is not addressable and a credit to it would be lost
+	if toClient != strings.ToLower(toClient) {
+		return nil, common.InvalidRequest("to client id should be lower-case hex for balance transfer")
 	}
 
 	defer func() {
